@@ -385,3 +385,22 @@ contract('odml/section.py::BaseSection.contains',
          props=('C13',),
          note='a Section is paired with the child Section of its name and type, a Property with the child Property of its '
               'name; None iff there is no such child')
+
+
+# ---- C14: the request predicate shared by find, find_related and get_section_by_path -----------------
+_T = 'lower(attr(obj, "type", "BaseSection"))'
+contract('odml/base.py::Sectionable._matches',
+         types={'self': ('BaseSection', 'BaseDocument'), 'obj': 'BaseSection', 'key': 'any', 'otype': 'any',
+                'include_subtype': 'any'}, pure=True,
+         requires='(key is None or is_str(key)) and (otype is None or is_str(otype)) and is_bool(include_subtype) '
+                  'and is_str(attr(obj, "type", "BaseSection"))',
+         ensures=['is_bool(result)',
+                  'implies(key is not None and field(obj, "_name") != key, not result)',
+                  'implies(otype is None, result == (key is None or field(obj, "_name") == key))',
+                  'implies(otype is not None and %s == otype, result == (key is None or field(obj, "_name") == key))' % _T,
+                  'implies(otype is not None and %s != otype and not include_subtype, not result)' % _T],
+         raises={},
+         props=('C14',),
+         note='a Section satisfies a request iff its name is the requested key (if any) and its type, compared lower '
+              'case, is the requested type (if any); without include_subtype nothing else matches (which component of the type '
+              'include_subtype accepts is left to the bounded check: the split reasoning is undecided by both solvers)')
